@@ -16,7 +16,7 @@ func runC14(c *Check, tier string) {
 	ruleR05a(c, "R14a")
 	ruleR14b(c)
 	ruleR14c(c, "R14c")
-	ruleR14d(c)
+	ruleR14d(c, "R14d")
 	ruleWritePathErrors(c, "R14e")
 }
 
@@ -122,9 +122,9 @@ func ruleR14c(c *Check, rule string) {
 	c.Require(okWD, rule, "wait-delay/"+c.P.FuncName(rn), "cmd.WaitDelay is set to a positive constant (bounded shutdown after cancellation)", "cmd.WaitDelay is not set to a positive constant: a cancelled or timed-out command whose children keep the pipes open blocks forever", pos)
 }
 
-func ruleR14d(c *Check) {
-	c.Rule("R14d", "the output-check runner ranges over every check without early success, fails on a command error and on a trimmed expected/actual mismatch", 2)
-	ex := findExec(c, "R14d")
+func ruleR14d(c *Check, rule string) {
+	c.Rule(rule, "the output-check runner ranges over every check without early success, fails on a command error and on a trimmed expected/actual mismatch", 2)
+	ex := findExec(c, rule)
 	if ex == nil {
 		return
 	}
@@ -132,7 +132,7 @@ func ruleR14d(c *Check) {
 	fname := c.P.FuncName(fn)
 	runs := callsToFn(c, fn, ex.RunCommand)
 	if len(runs) == 0 {
-		c.Unknown("R14d", "checks-loop/"+fname, "no command call in the check runner", "-")
+		c.Unknown(rule, "checks-loop/"+fname, "no command call in the check runner", "-")
 		return
 	}
 	lp := engine.LoopOf(runs[0])
@@ -153,7 +153,7 @@ func ruleR14d(c *Check) {
 			why = "an iteration of the loop over the checks can skip running the check command (conditional `continue`, memoised result): a check whose condition was destroyed is not re-evaluated"
 		}
 	}
-	c.Require(okLoop, "R14d", "checks-loop/"+fname, "every check is run on every call; success is returned only after the last one", why, c.P.InstrPos(runs[0]))
+	c.Require(okLoop, rule, "checks-loop/"+fname, "every check is run on every call; success is returned only after the last one", why, c.P.InstrPos(runs[0]))
 	// mismatch comparison: an `ne` atom between values derived from ExpectedOutput and from the command output, leading only to failure
 	found := false
 	okCmp := true
@@ -189,7 +189,7 @@ func ruleR14d(c *Check) {
 			}
 		}
 	}
-	c.Require(found && okCmp, "R14d", "mismatch-fails/"+fname, "an expected/actual mismatch leads only to an error return",
+	c.Require(found && okCmp, rule, "mismatch-fails/"+fname, "an expected/actual mismatch leads only to an error return",
 		map[bool]string{true: "after an expected/actual mismatch the runner can still continue or return success", false: "no comparison between the expected output and the command output found: expected_output is not enforced"}[found], c.P.Pos(fn.Pos()))
 }
 
